@@ -29,6 +29,8 @@ enum Exp {
     MsgAfterAsIs(DistMsg),
     /// not a frame: the clock moves on by that many seconds (nothing surfaces)
     Wait(u64),
+    /// a frame a decoder may accept or refuse (unusual but well-formed): exactly one result, of either kind
+    OneResult,
 }
 
 #[derive(Clone, Debug)]
@@ -56,7 +58,8 @@ fn alphabet(dist: bool) -> Vec<Item> {
     let m_unl = DistMsg { control: RefVal::Tuple(vec![RefVal::int(35), RefVal::Int(BigI::from_u64(1u64 << 63)), peer_pid(3), my_pid(1)]), payload: None };
     let m_99 = DistMsg { control: RefVal::Tuple(vec![RefVal::int(99), RefVal::atom("x")]), payload: Some(RefVal::binary(b"pl")) };
     let m_big = DistMsg { control: RefVal::Tuple(vec![RefVal::int(2), RefVal::atom(""), my_pid(2)]), payload: Some(RefVal::binary(&vec![9u8; 2048])) };
-    for (n, m) in [("send", &m_send), ("reg_send", &m_reg), ("exit", &m_exit), ("monitor_exit", &m_mon), ("link", &m_link), ("unlink_id_2^63", &m_unl), ("unknown_kind_99", &m_99), ("send_2KiB", &m_big)] {
+    let m_huge = DistMsg { control: RefVal::Tuple(vec![RefVal::int(2), RefVal::atom(""), my_pid(2)]), payload: Some(RefVal::binary(&(0..70_000u32).map(|i| (i % 251) as u8).collect::<Vec<u8>>())) };
+    for (n, m) in [("send", &m_send), ("reg_send", &m_reg), ("exit", &m_exit), ("monitor_exit", &m_mon), ("link", &m_link), ("unlink_id_2^63", &m_unl), ("unknown_kind_99", &m_99), ("send_2KiB", &m_big), ("send_70KB", &m_huge)] {
         v.push(Item { name: n, frames: vec![(pt(m), Exp::Msg(m.clone()))] });
     }
     v.push(Item { name: "tick", frames: vec![(vec![0, 0, 0, 0], Exp::Nothing)] });
@@ -74,6 +77,16 @@ fn alphabet(dist: bool) -> Vec<Item> {
         }
         let m = DistMsg { control: RefVal::Tuple(c), payload: if has_payload { Some(RefVal::list(vec![RefVal::atom("arg"), RefVal::int(tag)], RefVal::Nil)) } else { None } };
         v.push(Item { name, frames: vec![(pt(&m), Exp::Msg(m.clone()))] });
+    }
+    // a fun whose OldIndex / OldUniq are written as big integers with zero digits above the value (5 and 9 digit bytes), and
+    // one whose Size field is wrong: a decoder may take or refuse them, it may not panic or lose its place
+    for (name, oi) in [("kodd_fun_old_index_5_digits", vec![110u8, 5, 0, 7, 0, 0, 0, 0]), ("kodd_fun_old_index_9_digits", vec![110, 9, 0, 7, 0, 0, 0, 0, 0, 0, 0, 0]), ("kodd_fun_old_index_large_big", vec![111, 0, 0, 0, 5, 0, 7, 0, 0, 0, 0])] {
+        let mut inner = vec![1u8]; inner.extend_from_slice(&[9; 16]); inner.extend_from_slice(&3u32.to_be_bytes()); inner.extend_from_slice(&0u32.to_be_bytes());
+        inner.extend_from_slice(&[119, 1, b'm']); inner.extend_from_slice(&oi); inner.extend_from_slice(&[97, 2]);
+        inner.extend_from_slice(&[88, 119, 3, b'n', b'@', b'h', 0, 0, 0, 1, 0, 0, 0, 2, 0, 0, 0, 3]);
+        let mut body = vec![112u8, 131, 104, 3, 97, 2, 119, 0]; vcore::refcodec::w_term(&mut body, &my_pid(1));
+        body.push(131); body.push(112); body.extend_from_slice(&((inner.len() + 4) as u32).to_be_bytes()); body.extend_from_slice(&inner);
+        v.push(Item { name, frames: vec![(frame(&body, 4), Exp::OneResult)] });
     }
     v.push(Item { name: "junk_bytes", frames: vec![(frame(&[1, 2, 3], 4), Exp::OneErr)] });
     v.push(Item { name: "truncated_term", frames: vec![(frame(&[112, 131, 104, 3, 97], 4), Exp::OneErr)] });
@@ -250,6 +263,9 @@ fn alphabet(dist: bool) -> Vec<Item> {
     v
 }
 
+/// `seg` value: all frames of the case are written to the socket in one piece.
+const COALESCED: usize = usize::MAX;
+
 #[derive(Clone)]
 struct Case { items: Vec<usize>, seg: usize /* 0 whole, 1 byte-by-byte, 2+k = first frame split at offset k */, dist: bool, read_half: bool }
 
@@ -291,7 +307,14 @@ fn execute(case: &Case, alpha: &[Item], ctx: &WorkerCtx) -> ExecResult {
         let mut wire: Vec<(Vec<u8>, Exp)> = vec![];
         for &i in &case.items { wire.extend(alpha[i].frames.iter().cloned()); }
         wire.push((frame(&write_pass_through(&fin), 4), Exp::Msg(fin.clone())));
+        if case.seg == COALESCED {
+            // every frame of the case in one write: later frames are already in the socket while an earlier one is read
+            let all: Vec<u8> = wire.iter().flat_map(|(b, _)| b.iter().copied()).collect();
+            cw.peer.send(&all);
+            for _ in 0..40 { cw.w.settle(&mut cw.peer, &probe).await; if log.lock().unwrap().len() >= wire.len() { break; } }
+        }
         for (k, (bytes, _)) in wire.iter().enumerate() {
+            if case.seg == COALESCED { break; }
             res.steps += 1;
             if let (_, Exp::Wait(secs)) = &wire[k] { tokio::time::advance(std::time::Duration::from_secs(*secs)).await; cw.w.settle(&mut cw.peer, &probe).await; continue; }
             match case.seg {
@@ -308,7 +331,7 @@ fn execute(case: &Case, alpha: &[Item], ctx: &WorkerCtx) -> ExecResult {
         if h.is_finished() { if let Err(e) = h.await { if e.is_panic() { *panicked.lock().unwrap() = true; } } }
         let got = log.lock().unwrap().clone();
         let names: Vec<&str> = case.items.iter().map(|&i| alpha[i].name).collect();
-        let detail = |what: String| json!({"frames": names, "segmentation": match case.seg { 0 => "whole".to_string(), 1 => "byte-by-byte".to_string(), s => format!("first frame split at {}", s - 2) }, "entry": if case.read_half { "receive_message_from_read_half" } else { "receive_message" }, "what": what,
+        let detail = |what: String| json!({"frames": names, "segmentation": match case.seg { 0 => "whole".to_string(), 1 => "byte-by-byte".to_string(), COALESCED => "all frames in one write".to_string(), s => format!("first frame split at {}", s - 2) }, "entry": if case.read_half { "receive_message_from_read_half" } else { "receive_message" }, "what": what,
             "results": got.iter().map(|r| match r { Ok((c, p)) => format!("Ok({} / {:?})", c.short(), p.as_ref().map(|x| x.short())), Err(e) => format!("Err({})", e) }).collect::<Vec<_>>()});
         if *panicked.lock().unwrap() {
             res.violations.push(("the receiving task panicked on a malformed frame".into(), detail("panic".into())));
@@ -324,6 +347,7 @@ fn execute(case: &Case, alpha: &[Item], ctx: &WorkerCtx) -> ExecResult {
             match exp {
                 Exp::Nothing | Exp::FragPart => {}
                 Exp::Wait(_) => {}
+                Exp::OneResult => { match got.get(gi) { Some(_) => gi += 1, None => { problem = Some("no result for a frame that must be answered by a message or an error".into()); break; } } }
                 Exp::OneErr => { match got.get(gi) { Some(Err(_)) => gi += 1, other => { problem = Some(format!("expected one error for a malformed frame, got {:?}", other.map(|r| r.is_ok()))); break; } } }
                 Exp::Msg(m) => {
                     match got.get(gi) {
@@ -558,13 +582,15 @@ fn run_filtered(rep: &Report, only: Option<&str>) -> Value {
             let red: Vec<usize> = (0..n).filter(|&i| matches!(alpha[i].name, "send" | "exit" | "tick" | "junk_bytes" | "hdr_identity_slots" | "fragmented_x2" | "frag_header_count_beyond_frame" | "unknown_kind_99")).collect();
             for &a in &red { for &b in &red { for &c in &red { seqs.push(vec![a, b, c]); } } }
         }
-        if malformed_only { seqs.retain(|s| s.len() == 1 && alpha[s[0]].frames.iter().all(|(_, e)| matches!(e, Exp::OneErr | Exp::Nothing))); }
+        if malformed_only { seqs.retain(|s| s.len() == 1 && alpha[s[0]].frames.iter().all(|(_, e)| matches!(e, Exp::OneErr | Exp::Nothing | Exp::OneResult))); }
         else if only == Some("CACHE") { seqs.retain(|s| s.len() <= 2 && !s.is_empty() && s.iter().all(|&i| alpha[i].name.starts_with("hdr_") || alpha[i].name.starts_with("kfragperm_asis_announces"))); }
         else if let Some(f) = only { seqs.retain(|s| s.len() == 1 && alpha[s[0]].name.starts_with(f)); }
         for s in &seqs {
             cases.push(Case { items: s.clone(), seg: 0, dist, read_half });
             if (only.is_none() || malformed_only) && s.len() <= 2 && !s.is_empty() {
-                cases.push(Case { items: s.clone(), seg: 1, dist, read_half });
+                // (byte by byte only for frames of ordinary size: a millisecond passes per byte)
+                if !s.iter().any(|&i| alpha[i].name == "send_70KB") { cases.push(Case { items: s.clone(), seg: 1, dist, read_half }); }
+                if !s.iter().any(|&i| alpha[i].frames.iter().any(|(_, e)| matches!(e, Exp::Wait(_)))) { cases.push(Case { items: s.clone(), seg: COALESCED, dist, read_half }); }
                 if s.len() == 1 || thorough {
                     let first_len = alpha[s[0]].frames[0].0.len();
                     for off in 1..first_len.min(40) { cases.push(Case { items: s.clone(), seg: 2 + off, dist, read_half }); }
